@@ -579,14 +579,8 @@ func gStrExprNonEmpty(match func(u *core.Unit, e ast.Expr) bool) core.Guard {
 		if !ok || cmp.Val == nil {
 			return 0
 		}
-		if ce, isC := ast.Unparen(cmp.X).(*ast.CallExpr); isC && calleeNameOf0(ce) == "len" && len(ce.Args) == 1 && match(u, ce.Args[0]) && cmp.Val.ExactString() == "0" {
-			switch cmp.Op {
-			case token.GTR, token.NEQ:
-				return 1
-			case token.EQL, token.LEQ:
-				return -1
-			}
-			return 0
+		if ce, isC := ast.Unparen(cmp.X).(*ast.CallExpr); isC && calleeNameOf0(ce) == "len" && len(ce.Args) == 1 && match(u, ce.Args[0]) {
+			return positiveEdge(cmp)
 		}
 		if match(u, cmp.X) && cmp.Val.Kind() == constant.String && constant.StringVal(cmp.Val) == "" {
 			switch cmp.Op {
